@@ -208,11 +208,31 @@ class Ctx:
         """Register one explored case. `canonical` is hashed to count distinct non-trivial cases."""
         self.evaluations += 1
         self.streams[stream] = self.streams.get(stream, 0) + 1
+        self._flip_logging()
         if nontrivial:
             h = hashlib.blake2b(json.dumps(canonical, sort_keys=True, default=str).encode(), digest_size=8).digest()
             self.nontrivial_keys.add(h)
         if sample is not None and len(self.samples) < 6 and (nontrivial or not self.samples):
             self.samples.append(sample)
+
+    def _flip_logging(self):
+        """every other case runs with the library's loggers enabled for DEBUG (records go to a handler that drops them), the others with
+        logging switched off: whether somebody is listening must not change a result (guarded `if logger.isEnabledFor(DEBUG):` blocks
+        run in half of the cases)"""
+        import logging
+        lg = logging.getLogger('hpotk')
+        if not getattr(self, '_log_ready', False):
+            lg.addHandler(logging.NullHandler())
+            lg.propagate = False
+            self._log_ready, self._log_debug = True, False
+        self._log_debug = not self._log_debug
+        if self._log_debug:
+            logging.disable(logging.NOTSET)
+            lg.setLevel(logging.DEBUG)
+        else:
+            lg.setLevel(logging.WARNING)
+            logging.disable(logging.CRITICAL)
+        self.dist['cases-run-with-DEBUG-logging-enabled'] = self.dist.get('cases-run-with-DEBUG-logging-enabled', 0) + (1 if self._log_debug else 0)
 
     # ---- violations -----------------------------------------------------------------
     def violation(self, what: str, replay: dict, key: str = None, no_input: bool = False):
@@ -351,7 +371,8 @@ def shrink_list(items, fails, max_rounds=200):
     return items
 
 
-HOSTILE_ENV = {'LC_ALL': 'C', 'LANG': 'C', 'PYTHONUTF8': '0', 'PYTHONCOERCECLOCALE': '0', 'TZ': 'Pacific/Kiritimati'}
+HOSTILE_ENV = {'LC_ALL': 'C', 'LANG': 'C', 'PYTHONUTF8': '0', 'PYTHONCOERCECLOCALE': '0', 'TZ': 'Pacific/Kiritimati',
+               'PYTHONOPTIMIZE': '1'}        # ASCII locale, UTF-8 mode off, a far-away time zone, `assert` statements stripped (python -O)
 
 
 def run_in_child(module, func, env_extra=None, cwd=None, timeout=600):
@@ -446,3 +467,22 @@ def scribble(obj):
     except Exception:  # noqa
         pass
     return False
+
+
+def environment_probe(ctx, module, func, theorem):
+    """`props.<module>.<func>()` (a JSON-able digest of outcomes) here and in a child interpreter under HOSTILE_ENV: what the library
+    answers must not depend on the locale, the UTF-8 mode, the time zone or on `assert` statements being executed"""
+    import importlib
+    here = json.loads(json.dumps(getattr(importlib.import_module('props.' + module), func)()))
+    there = run_in_child(module, func, HOSTILE_ENV)
+    ctx.case(['environment-probe', module, func], True, 'outcomes under an ASCII locale / UTF-8 mode off / python -O (child interpreter)')
+    if here != there:
+        if isinstance(there, dict) and 'child_failed' in there:
+            diff = {'child interpreter failed': there['child_failed'][-600:]}
+        elif isinstance(here, dict) and isinstance(there, dict):
+            diff = {k: [here.get(k), there.get(k)] for k in sorted(set(here) | set(there)) if here.get(k) != there.get(k)}
+        else:
+            diff = {'this process': str(here)[:600], 'hostile environment': str(there)[:600]}
+        ctx.violation('environment:' + (sorted(diff)[0][:60] if diff else ''), {'case': {'kind': 'environment', 'env': HOSTILE_ENV, 'probe': f'{module}.{func}'},
+                                                                               'impl': {'differing outcomes [this process, hostile environment]': dict(list(diff.items())[:6])},
+                                                                               'theorem': theorem})
